@@ -170,11 +170,19 @@ def _root_.Rtosc.Save.App.saveText (app : App) (rtoscVer appVer : Nat × Nat × 
 /-- a literal word of a `sscanf` format -/
 def expect (w s : Bytes) : Option Bytes := if w.isPrefixOf s then some (s.drop w.length) else none
 
-/-- `%u`: white space, then decimal digits (at least one) -/
+/-- what `%u` stores for a number with a minus sign: `strtoul` negates, the store keeps 32 bits (a non-zero
+    value becomes a number far above 255) -/
+def wrapU (neg : Bool) (v : Nat) : Nat :=
+  if neg && v != 0 then 4294967296 - v % 4294967296 else v
+
+/-- `%u`: white space, an optional sign (`+` or `-`, as `strtoul` takes it), then decimal digits (at least one).
+    (A number of 2^32 or more wraps in the code; the model keeps it as it is: above 255 either way unless the
+    wrapped value is small.) -/
 def scanU (s : Bytes) : Option (Nat × Bytes) :=
   let s1 := skipSpace s
-  let ds := s1.takeWhile isdigit
-  if ds.isEmpty then none else some (digitsVal 10 ds, s1.drop ds.length)
+  let s2 := if (hd s1 == 43 || hd s1 == 45) then s1.drop 1 else s1
+  let ds := s2.takeWhile isdigit
+  if ds.isEmpty then none else some (wrapU (hd s1 == 45) (digitsVal 10 ds), s2.drop ds.length)
 
 /-- `%u.%u.%u` -/
 def scanVer (s : Bytes) : Option ((Nat × Nat × Nat) × Bytes) := do
